@@ -11,7 +11,7 @@ LEAN_TARGETS = ['Props.C07']
 REQUIRED_THEOREMS = ['Props.C07.modes_stack', 'Props.C07.ctx_restores', 'Props.C07.result_requires_grad_rule',
                      'Props.C07.no_grad_result_has_no_history', 'Props.C07.release_rule', 'Props.C07.float_only',
                      'Props.C07.detach_is_plain', 'Props.C07.gradTensor_is_plain', 'Props.C07.fromData_is_leaf', 'Props.C07.copyTensor_same']
-REQUIRED_THEOREMS += ['Props.C07.' + t for t in ['src_creation_rule_is_model', 'src_is_leaf_is_model', 'src_requires_grad_setter_is_model', 'src_retain_grad_is_model', 'src_ctx_new_is_model', 'src_ctx_enter_is_model', 'src_ctx_exit_is_model']]   # ties to the source read on this run
+REQUIRED_THEOREMS += ['Props.C07.' + t for t in ['src_creation_rule_is_model', 'src_is_leaf_is_model', 'src_requires_grad_setter_is_model', 'src_retain_grad_is_model', 'src_ctx_new_is_model', 'src_ctx_enter_is_model', 'src_ctx_exit_is_model', 'src_no_inplace_operator', 'src_no_attribute_hook', 'src_parameter_created_by_tensor_init']]   # ties to the source read on this run
 RULE = ('event sequences: context objects created (possibly long before use, re-used, entered while another is active), '
         'well-nested enter/exit at depth <= 5 incl. exits by exception, leaves created with either flag and float/int dtype, ops on '
         'mixed operands inside and outside contexts, requires_grad toggled on leaves and non-leaves, retain_grad, backward inside / '
